@@ -207,6 +207,50 @@ pub enum Gp {
     Lzma(u32),
 }
 
+/// Independent reading of a gzip member (RFC 1952): header with optional fields, raw deflate
+/// (miniz_oxide through `vmc::oracle::bgzf::inflate_raw`, independent of the zlib-rs noodles uses),
+/// CRC-32 and ISIZE trailer, nothing after it. Errors are class-level strings.
+pub fn gunzip_ref(src: &[u8], expect_len: usize) -> Result<Vec<u8>, String> {
+    if src.len() < 18 || src[0] != 0x1f || src[1] != 0x8b || src[2] != 8 {
+        return Err("gzip-header".into());
+    }
+    let flg = src[3];
+    let mut p = 10usize;
+    if flg & 4 != 0 {
+        let xlen = *src.get(p).ok_or("gzip-header")? as usize | (*src.get(p + 1).ok_or("gzip-header")? as usize) << 8;
+        p += 2 + xlen;
+    }
+    for bit in [8u8, 16] {
+        if flg & bit != 0 {
+            while *src.get(p).ok_or("gzip-header")? != 0 {
+                p += 1;
+            }
+            p += 1;
+        }
+    }
+    if flg & 2 != 0 {
+        p += 2;
+    }
+    let body = src.get(p..).ok_or("gzip-header")?;
+    let (data, consumed) = vmc::oracle::bgzf::inflate_raw(body, expect_len + 64).map_err(|_| "inflate-status".to_string())?;
+    let trailer = body.get(consumed..).ok_or("gzip-trailer")?;
+    if trailer.len() < 8 {
+        return Err("gzip-trailer-short".into());
+    }
+    if trailer.len() > 8 {
+        return Err("gzip-trailing-bytes".into());
+    }
+    let crc = u32::from_le_bytes([trailer[0], trailer[1], trailer[2], trailer[3]]);
+    let isize_ = u32::from_le_bytes([trailer[4], trailer[5], trailer[6], trailer[7]]);
+    if crc != crc32fast::hash(&data) {
+        return Err("gzip-crc".into());
+    }
+    if isize_ != data.len() as u32 {
+        return Err("gzip-isize".into());
+    }
+    Ok(data)
+}
+
 pub fn general(gp: Gp, x: &[u8]) -> Result<Seen, Fail> {
     let enc = match call(|| match gp {
         Gp::Gzip(l) => nv::gzip_encode(flate2::Compression::new(l), x),
@@ -229,7 +273,13 @@ pub fn general(gp: Gp, x: &[u8]) -> Result<Seen, Fail> {
         encoded_len: enc.len(),
         ..Default::default()
     };
-    verdict(x, &enc, dec, None, seen)
+    // gzip: the member noodles emits must also be a complete gzip member of x for an independent
+    // inflater (a valid member of a *prefix* of x is an encode-side failure)
+    let reference = match gp {
+        Gp::Gzip(_) => Some(gunzip_ref(&enc, x.len())),
+        _ => None,
+    };
+    verdict(x, &enc, dec, reference, seen)
 }
 
 pub fn fqzcomp(lens: &[usize], x: &[u8]) -> Result<Seen, Fail> {
